@@ -437,14 +437,37 @@ pub fn generate(seed: u64, tier: &str, property: &str) -> RegScenario {
                 h.push(Op::AddBatch { items: its }, Some(label), false);
             }
         } else if roll < 63 {
-            let s = match rng.below(5) {
+            let s = match rng.below(8) {
                 0 => vec![],
                 1 => vec![".html".to_string()],
                 2 => vec![".txt".to_string(), ".md".to_string(), "".to_string()],
                 3 => vec![".xml".to_string(), ".htm".to_string()],
-                _ => vec![".html".to_string(), ".htm".to_string(), ".xml".to_string()],
+                4 => vec![".html".to_string(), ".htm".to_string(), ".xml".to_string()],
+                _ => {
+                    // random subset of overlapping suffixes (one a suffix of another, the empty
+                    // suffix that matches every name): an incremental recomputation of the flags
+                    // from the *difference* of two lists goes wrong exactly there (seeded change C10f)
+                    let pool = [".html", ".htm", ".xml", ".txt", ".md", "", "l", "ml", "t", "m", ".php.html", "0.html", "1.xml", "d"];
+                    let k = rng.range(1, 4);
+                    let mut v: Vec<String> = Vec::new();
+                    for _ in 0..k {
+                        let x = rng.pick(&pool).to_string();
+                        if !v.contains(&x) {
+                            v.push(x);
+                        }
+                    }
+                    v
+                }
             };
-            h.push(Op::AutoescapeOn { suffixes: s }, None, false);
+            h.push(Op::AutoescapeOn { suffixes: s.clone() }, None, false);
+            if rng.chance(1, 3) {
+                // reconfigure again right away, keeping some of the suffixes
+                let mut s2: Vec<String> = s.iter().filter(|_| rng.chance(1, 2)).cloned().collect();
+                if rng.chance(1, 2) {
+                    s2.push(rng.pick(&[".html", "l", "", ".xml", "t"]).to_string());
+                }
+                h.push(Op::AutoescapeOn { suffixes: s2 }, None, false);
+            }
         } else if roll < 67 {
             h.push(Op::SetDelimsLate { delims: Delims::set(rng.below(Delims::N_SETS)) }, Some("late-set-delimiters"), false);
         } else if roll < 71 {
